@@ -23,10 +23,36 @@ pub fn connection(args: &Value) -> Outcome {
             let c = OpaqueCursor(x.clone()); let e = c.encode_cursor();
             match OpaqueCursor::<(i32, String)>::decode_cursor(&e) { Ok(y) if y.0 == x => {}, other => bad.push(format!("opaque {:?} -> {} -> {:?}", x, e, other.map(|o| o.0).map_err(|e| e.to_string()))) }
         }
+        // opaque cursors over strings whose JSON bytes hit every base64 symbol (incl. the two alphabet-specific ones) and every padding length
+        let mut strs: Vec<String> = vec!["?".into(), ">".into(), "~".into(), "??".into(), ">>>".into(), "~~~~".into(), "\u{e9}".into(), "\u{4e2d}\u{6587}".into(), "\u{1F600}".into(), "a?b>c~".into(), "\u{ff}\u{fe}".into()];
+        let mut r = crate::rng::Rng(args["seed"].as_u64().unwrap_or(0) ^ 0x32);
+        for _ in 0..60 { let n = r.below(7); strs.push((0..n).map(|_| char::from_u32(match r.below(4) { 0 => 0x20 + r.below(0x5f) as u32, 1 => 0x3e + r.below(2) as u32, 2 => 0xa0 + r.below(0x60) as u32, _ => 0x4e00 + r.below(0x100) as u32 }).unwrap()).collect()); }
+        for x in &strs {
+            let c = OpaqueCursor(x.clone()); let e = c.encode_cursor();
+            match OpaqueCursor::<String>::decode_cursor(&e) { Ok(y) if &y.0 == x => {}, other => bad.push(format!("opaque {:?} -> {} -> {:?}", x, e, other.map(|o| o.0).map_err(|e| e.to_string()))) }
+            let c2 = OpaqueCursor(vec![x.clone(), x.clone()]); let e2 = c2.encode_cursor();
+            match OpaqueCursor::<Vec<String>>::decode_cursor(&e2) { Ok(y) if y.0 == vec![x.clone(), x.clone()] => {}, other => bad.push(format!("opaque [{:?};2] -> {} -> {:?}", x, e2, other.map(|o| o.0).map_err(|e| e.to_string()))) }
+            if let Some(b) = rt(x.clone()) { bad.push(b); }
+            if let Some(b) = rt(async_graphql::ID(x.clone())) { bad.push(b); }
+        }
+        for x in ['a', '?', '\u{1F600}', ' '] { if let Some(b) = rt(x) { bad.push(b); } }
+        for x in [true, false] { if let Some(b) = rt(x) { bad.push(b); } }
+        for x in [0u8, 255] { if let Some(b) = rt(x) { bad.push(b); } }
+        for x in [i128::MIN, u64::MAX as i128] { if let Some(b) = rt(x) { bad.push(b); } }
+        for x in [0.5f32, f32::MAX, -0.0] { if let Some(b) = rt(x) { bad.push(b); } }
         return Outcome { holds: bad.is_empty(), observed: if bad.is_empty() { "all cursors round-trip".into() } else { bad.join("; ") }, expected: "decode(encode(x)) == x".into() };
     }
     let s = |k: &str| args[k].as_str().map(|x| x.to_string());
     let n = |k: &str| args[k].as_i64().map(|x| x as i32);
+    if args["kind"] == "query_str" {
+        let mut got: Option<(Option<String>, Option<String>, Option<usize>, Option<usize>)> = None;
+        let r = query_with::<String, _, _, _, _>(s("after"), s("before"), n("first"), n("last"), |a, b, f, l| { got = Some((a, b, f, l));
+            async move { Ok::<_, async_graphql::Error>(Connection::<String, i32, EmptyFields, EmptyFields>::new(false, false)) } }).now_or_never().unwrap();
+        let neg = n("first").map(|x| x < 0).unwrap_or(false) || n("last").map(|x| x < 0).unwrap_or(false);
+        let exp = if neg { None } else { Some((s("after"), s("before"), n("first").map(|x| x as usize), n("last").map(|x| x as usize))) };
+        let holds = match &exp { None => r.is_err() && got.is_none(), Some(e) => r.is_ok() && got.as_ref() == Some(e) };
+        return Outcome { holds, observed: format!("ok={} args={:?}", r.is_ok(), got), expected: format!("{:?}", exp) };
+    }
     let called = AtomicUsize::new(0);
     let mut got: Option<(Option<usize>, Option<usize>, Option<usize>, Option<usize>)> = None;
     let r = query_with::<usize, _, _, _, _>(s("after"), s("before"), n("first"), n("last"), |a, b, f, l| { called.fetch_add(1, Ordering::SeqCst); got = Some((a, b, f, l));
@@ -41,7 +67,10 @@ pub fn connection(args: &Value) -> Outcome {
 }
 
 pub fn inputs(_seed: u64) -> impl Iterator<Item = Value> {
-    let mut v = vec![json!({"kind": "roundtrip"})];
+    let mut v = vec![json!({"kind": "roundtrip", "seed": _seed})];
+    for a in [json!(null), json!(""), json!("x"), json!(" ")] { for b in [json!(null), json!(""), json!("y")] { for f in [json!(null), json!(0), json!(3), json!(-2)] {
+        v.push(json!({"kind": "query_str", "after": a, "before": b, "first": f, "last": null}));
+        v.push(json!({"kind": "query_str", "after": a, "before": b, "first": null, "last": f})); } } }
     let curs = [json!(null), json!("0"), json!("17"), json!("x"), json!("-1"), json!(""), json!("18446744073709551616")];
     let nums = [json!(null), json!(0), json!(1), json!(10), json!(-1), json!(i32::MIN), json!(i32::MAX)];
     for a in &curs { for f in &nums { v.push(json!({"kind": "query", "after": a, "before": null, "first": f, "last": null})); } }
